@@ -29,6 +29,8 @@ deriving Repr, BEq, DecidableEq
 
 abbrev Bytes := List UInt8
 
+deriving instance DecidableEq for Except
+
 /-! ### byte-string primitives (`strings.HasPrefix`, `strings.Index`, `s[k:]`) -/
 
 /-- `strings.Index(s, p)` counted from offset `k` -/
@@ -311,5 +313,31 @@ def applyClass (env : ClassEnv) : Nat → List String → String → Except Cras
 /-- `pushImportStack`: refuse a path already on the stack ("detected cyclic import chain") -/
 def pushImport (stack : List String) (p : String) : Option (List String) :=
   if stack.contains p then none else some (p :: stack)
+
+/-! ### Spec: the property sentence on one observed compilation (`compileOutcomeOk`) -/
+
+/-- one reported error as observed: the file it names (known = index.d2 or an importable file), that file's byte
+    length and newline count, the range, and whether the message starts with `path:line:col: ` of the range start -/
+structure ErrObs where
+  known : Bool
+  flen : Nat
+  nl : Nat
+  sl : Int
+  sb : Int
+  eb : Int
+  prefixOk : Bool
+deriving Repr
+
+/-- "an error with a source position": names a file of the compilation and a range inside it -/
+def ErrObs.why (e : ErrObs) : Option String :=
+  if !e.known then some "nopath"
+  else if e.sb < 0 ∨ e.eb < e.sb ∨ (e.flen : Int) < e.eb then some "range"
+  else if e.sl < 0 ∨ (e.nl : Int) < e.sl then some "line"
+  else if !e.prefixOk then some "message"
+  else none
+
+/-- wall-time bound in microseconds for `n` input bytes (all files): 20 × the largest ratio
+    µs / (200 + bytes) ≈ 250 measured on the unchanged tree over 300 k generated programs -/
+def timeBoundUs (n : Nat) : Nat := 5000 * (200 + n)
 
 end D2V.CompileLeaves
